@@ -71,7 +71,7 @@ def confirm(d):
 
 def verif_copy():
     """scratch copy of /verif (sources + build output), refreshed from the working tree"""
-    dst = os.path.join(SCRATCH, 'verif')
+    dst = os.path.join(SCRATCH, 'verif-%d' % os.getpid())
     os.makedirs(dst, exist_ok=True)
     rc, out = sh(['rsync', '-a', '--delete', '--exclude', '.git', '--exclude', 'replays', '--exclude', 'seeded',
                   '--exclude', 'work', '--exclude', '__pycache__',
@@ -112,6 +112,8 @@ def detect(d, pids, tier='quick', copy=None, seed=0):
             out_all[pid] = r
     finally:
         drop(wt)
+        if copy is None:
+            shutil.rmtree(os.path.join(SCRATCH, 'verif-%d' % os.getpid()), ignore_errors=True)
     return out_all
 
 
